@@ -1,0 +1,48 @@
+//go:build verif
+
+// Contracts for govc (/verif): C32 — base58 as used by the address codec. Comment-only file.
+//
+// The radix conversion itself (big.Int loops, non-linear) is NOT verified functionally: Encode/Decode are described by two
+// uninterpreted functions, and that they are inverse to each other is ASSUMED (the two axioms below).
+
+package base58
+
+//@ -- EncodeOf(c): the string Encode returns for the byte string c.  DecodeOf(t): the byte string Decode returns for the string t.
+//@ uninterp EncodeOf(c mathint) string
+//@ uninterp DecodeOf(t string) mathint
+
+//@ -- ASSUMED: Decode(Encode(b)) == b for every byte string b
+//@ axiom @C32 forall c mathint :: {EncodeOf(c)} DecodeOf(EncodeOf(c)) == c
+//@ -- ASSUMED (canonical form): a string that decodes to a NON-EMPTY byte string is the encoding of that byte string
+//@ -- (Decode returns the empty string for every input containing a character outside the alphabet; a non-empty input over the
+//@ -- alphabet decodes to: one zero byte per leading '1', then the big-endian bytes of the number, which Encode maps back to the
+//@ -- same leading '1's and the same digits)
+//@ axiom @C32 forall t string :: {DecodeOf(t)} blen(DecodeOf(t)) != 0 ==> EncodeOf(DecodeOf(t)) == t
+
+//@ -- ASSUMED (package initialisation): bigRadix[0..10] and bigRadix10 are set once by the package's variable initialisers to
+//@ -- big.NewInt(...) results and never assigned again (checked by grep: all other occurrences are reads)
+//@ axiom @C32 bigRadix10 != nil && *bigRadix10 == 430804206899405824 && (forall i int :: {bigRadix[i]} 0 <= i && i <= 10 ==> bigRadix[i] != nil)
+
+//@ -- Encode / Decode: SAFETY is verified (no index / slice / nil / make panic on any input of realistic length); their VALUE is not:
+//@ -- the `assumes` clauses name it EncodeOf / DecodeOf (see above).
+//@ -- [physical]: no string or slice of 2^40 bytes exists; needed only to exclude integer overflow in the two `make` sizes.
+//@ func Decode(b)
+//@   property C32
+//@   requires [physical] len(b) <= 1099511627776
+//@   modifies nothing
+//@   ensures fresh(result)
+//@   assumes seq(result) == DecodeOf(b)
+//@   loop 0 invariant len(t) <= len(b)
+//@   loop 2 invariant 0 <= numZeros && numZeros <= len(b)
+
+//@ -- (moved here from zz_contracts_c05_verif.go, where it was assumed) no effect on existing memory; its value is EncodeOf of the content
+//@ func Encode(b)
+//@   property C32
+//@   requires [physical] len(b) <= 1099511627776
+//@   modifies nothing
+//@   assumes result == EncodeOf(seq(b))
+//@   loop 0 invariant fresh(answer)
+//@   loop 1 invariant fresh(answer)
+//@   loop 2 invariant fresh(answer) && m >= 0 && rangeint_iter < 10
+//@   loop 3 invariant fresh(answer)
+//@   loop 4 invariant 0 <= i
